@@ -256,6 +256,10 @@ def _norm_result(r, dom):
     return (name, list(r.keys()) if hasattr(r, "keys") else list(r))
 
 
+PRECALL = None      # optional callable run right before the function call
+POSTCALL = None     # ... and right after it returned or raised
+
+
 def _apply_mod(c, op, dom, impl):
     from ..keys import HOOK
     mod = dom.mod
@@ -272,7 +276,14 @@ def _apply_mod(c, op, dom, impl):
     finally:
         HOOK.enabled = saved
     try:
-        return ("ok", _norm_result(fn(*args), dom))
+        if PRECALL is not None:
+            PRECALL()
+        try:
+            r = fn(*args)
+        finally:
+            if POSTCALL is not None:
+                POSTCALL()
+        return ("ok", _norm_result(r, dom))
     except Exception as e:
         return ops.norm_exc(e)
 
